@@ -4,9 +4,12 @@
 cd "$(dirname "$0")"
 export SIM_TARGET_DIR="${SIM_TARGET_DIR:-$PWD/target-soak}" VERIF_DIR="$PWD"
 TIER="${3:-quick}"; bad=0
+# build ONCE from /repo as it is now; later edits of /repo (e.g. mutants being tried) must not leak in
+./build.sh || exit 2
+BIN="$SIM_TARGET_DIR/release/simcheck"
 for s in $(seq "$1" "$2"); do
   for p in C01 C02 C03 C04 C05 C06 C09 C10 C11 C12 C13 C20; do
-    out=$(VERIF_SEED=$s ./check.sh $p $TIER 2>&1); rc=$?
+    out=$(VERIF_SEED=$s "$BIN" run --property $p --tier $TIER 2>&1); rc=$?
     if [ $rc -ne 0 ]; then bad=$((bad+1)); echo "SOAK seed=$s $p rc=$rc"; echo "$out" | grep -E "^violation|VIOLATION" | cut -c1-600; fi
   done
   echo "soak: seed $s done (alarms so far: $bad)"
